@@ -44,6 +44,15 @@ def families_e3(prop, tier, seed):
     fams.append(('exhaustive-variants', var))
     nrand = 150 if tier == 'quick' else 1500
     fams.append(('random(seed=%d)' % seed, gram.random_family(seed, nrand)))
+    from . import regress
+    fams.append(('regression shapes', [regress.HOPCROFT_SPLITTER]))
+    nloop = 400 if tier == 'quick' else 4000
+    fams.append(('loop-heavy random(seed=%d)' % seed, gram.loop_heavy_family(seed, nloop)))
+    if prop == 'C03':
+        # all-states-accepting automata: every small tree wrapped in [ ] and ([ ])...
+        trees = gram.enumerate_trees(4 if tier == 'quick' else 5, ['a', 'b'], with_sub=False, with_fb=False)
+        fams.append(('optional-wrapped exhaustive', [gram.mk('cmd', gram.Opt(t)) for t in trees] +
+                     [gram.mk('cmd', gram.Many(gram.Opt(t))) for t in trees]))
     return fams
 
 
@@ -86,6 +95,10 @@ def run_e3(prop, tier, seed, families, shells=SHELLS, props=None, analyse=None):
             rep.inconclusive.append(inc)
         if len(samples) < 6 and r['rows'] and r['rows'][0]['status'] == 'ok' and r['rows'][0].get('nontrivial'):
             samples.append({'grammar': r['text'], 'rows': r['rows']})
+    skipped = status.get('rejected-by-stricter-within-word-rule', 0)
+    if skipped * 4 > max(1, sum(status.values())):
+        rep.inconclusive.append('%d of %d programs were rejected by complgen\'s within-word rules: too many to call the family explored'
+                                % (skipped, sum(status.values())))
     # vacuity guard: a mutated automaton must be rejected by query 1
     mut = mutation_guard(results, stats)
     if not mut['ok']:
@@ -235,6 +248,14 @@ def family_c09(tier, seed):
                 out.append(gram.mk('cmd', F(Ref('P'), Ref('Q')), [('P', None, S(L(h), t1)), ('Q', None, S(L(h), t2))]))
         out.append(gram.mk('cmd', F(L(h), S(L(h), L('b')))))
         out.append(gram.mk('cmd', Many(F(L(h), S(L(h), L('b'))))))
+    # the same external command / within-word expression at the start of two || branches
+    C = gram.Cmd
+    for item in (C('echo x'), Ref('U'), Sub(L('k='), A(L('1'), L('2'))), Sub(L('k='), C('echo v'))):
+        defs = [('U', None, C('echo alice; echo bob'))] if item == Ref('U') else []
+        for t1, t2 in ((L('a'), L('b')), (L('a'), S(L('a'), L('b'))), (Opt(L('a')), L('b'))):
+            out.append(gram.mk('cmd', F(S(item, t1), S(item, t2)), defs))
+            out.append(gram.mk('cmd', F(S(item, t1), L('q'), S(item, t2)), defs))
+            out.append(gram.mk('cmd', S(L('p'), Many(F(S(item, t1), S(item, t2)))), defs))
     # within-word expressions repeated with permuted alternatives / through different definitions
     vals = [('a', 'b'), ('a', 'ab'), ('x', 'y', 'z')]
     for vs in vals:
@@ -326,6 +347,7 @@ def family_c12(tier, seed):
 
 
 E2_REQUIRED_EVENTS = {
+    'C07': ('literal-step', 'within-word-step', 'nonempty-reply'),
     'C17': ('literal-step', 'within-word-step', 'command-step', 'fallback-level-used', 'nonempty-reply', 'unmatched'),
     'C01': ('literal-step', 'within-word-step', 'command-step', 'any-word-step', 'fallback-level-used',
             'nonempty-reply', 'return-1', 'unmatched'),
@@ -469,6 +491,18 @@ def family_c17(tier, seed):
         out.append(gram.mk('cmd', S(Ref('W'), L('x')), [('W', None, A(S(L('y'), Ref('N')), L('w'))), ('N', None, c)]))
     out.append(gram.mk('cmd', S(A(Cmd(probe('c1')), Cmd(probe('c2'))), L('x'))))
     out.append(gram.mk('cmd', S(Cmd(probe('c1')), Cmd(probe('c2')), L('x'))))
+    # tables of the main automaton and of several within-word automata live in one dynamic scope: a command / placeholder
+    # at top level together with within-word expressions that do and do not contain one
+    top_c, top_any = Cmd(probe('c1')), Ref('ANY')
+    w_plain = Sub(L('m='), A(L('f'), L('s')))
+    w_plain2 = Sub(L('p'), Opt(L('q')))
+    w_cmd = Sub(L('n='), Cmd(probe('c2')))
+    w_any = Sub(L('u='), Ref('ANY'))
+    for top in (top_c, top_any):
+        for ws in ((w_plain, w_cmd), (w_plain, w_any), (w_plain2, w_cmd), (w_plain, w_cmd, w_any)):
+            out.append(gram.mk('cmd', S(top, A(*ws), L('end'))))
+            out.append(gram.mk('cmd', S(A(*ws), top, L('end'))))
+            out.append(gram.mk('cmd', S(Many(A(*(ws + (top,)))), L('end'))) if top is top_c else gram.mk('cmd', S(A(*ws), Opt(top))))
     out.append(gram.mk('cmd', S(L('a'), Ref('U'), Cmd(probe('c2')))))
     out.extend(gen_e2(seed + 17, 20 if tier == 'quick' else 200, allow_descr=False))
     return [('commands at every syntactic position', out)]
@@ -487,7 +521,101 @@ def check_C17(tier, seed):
     return rep
 
 
+SPECIAL_LITERALS = ['a"b', 'a\\', 'a\\b', 'a$b', '$a', 'a`b', 'a!b', 'a*', '*', 'a?c', '~a', 'a#b', 'a&b', '[ab]', 'a[', '{a}', '(a)', '<a>',
+                    'a|b', 'a;b', 'a.b', "a'b", '"', '\\\\', '$(a)', '`a`', 'a\\$b', 'a"$`\\', '--x=*', 'a**', '?']
+
+
+def family_c07(tier, seed):
+    L, S, A, Sub, Opt = gram.Lit, gram.Seq, gram.Alt, gram.Sub, gram.Opt
+    out = []
+    lits = SPECIAL_LITERALS
+    step = 3
+    for i in range(0, len(lits), step):
+        chunk = lits[i:i + step]
+        out.append(gram.mk('cmd', S(A(*[L(x) for x in chunk]), L('end'))))                       # top level
+    for i in range(0, len(lits) - 1, 2):
+        chunk = lits[i:i + 2]
+        # inside a word after a plain prefix (kept prefix-free by construction: distinct first characters are not guaranteed,
+        # the region query filters the rest)
+        out.append(gram.mk('cmd', S(Sub(L('o='), A(*[L(x) for x in chunk])), L('end'))))
+    out.append(gram.mk('cmd', S(L('a*', 'descr "quoted" $x `y` \\'), L('end', "it's"))))
+    return [('special-character vocabulary', out)]
+
+
+def check_C07(tier, seed):
+    """E1 (MIR -> SMT) for the four escapers + E2/real bash on the special-character vocabulary."""
+    from . import e1, e2, mirsym, autosmt, quoting
+    common.ensure_built()
+    t0 = time.time()
+    stats = autosmt.Stats()
+    N = 4 if tier == 'quick' else 6
+    mir = mirsym.dump_mir()
+    cgvp = common.Cgv()
+    shells = ('bash', 'fish', 'zsh', 'pwsh')
+    texts = {sh: mirsym.function_text(mir, '%s::make_string_constant' % sh) for sh in shells}
+    nvalid = e1.validate_translator(cgvp, texts, seed)
+    e1_rows = []
+    e1_viol = []
+    models = set()
+    for sh in shells:
+        for n in range(1, N + 1) if tier != 'quick' else (N,):
+            holds, cex, ms, ncells = e1.solve_kernel(texts[sh], sh, n, stats)
+            models |= set(ms)
+            e1_rows.append({'function': '%s::make_string_constant' % sh, 'max_bytes': n, 'holds': holds, 'cells': ncells,
+                            'counterexample': cex})
+            if not holds:
+                const = cgvp.strconst(cex)[sh]
+                why = e1.violates(sh, cex, const)
+                if why is None:
+                    raise Inconclusive('E1 counterexample %r for %s does not reproduce on the real function (constant %r)' % (cex, sh, const))
+                small = e1.minimise(cgvp, sh, sh, cex)
+                const = cgvp.strconst(small)[sh]
+                why = e1.violates(sh, small, const)
+                payload = {'shell': sh, 'string': small, 'constant': const, 'why': why, 'solver_string': cex}
+                if sh == 'bash':
+                    rc, out, err = e1.bash_eval(const)
+                    payload['bash_eval'] = {'rc': rc, 'stdout': out.decode(errors='replace'), 'stderr': err}
+                    if rc == 0 and out == small.encode():
+                        raise Inconclusive('reader model for bash disagrees with the real bash on %r' % const)
+                e1_viol.append(('%s:%s:%s' % (sh, why, ''.join(sorted(set(c for c in small if not c.isalnum())))),
+                                '%s::make_string_constant(%r) = %s which the %s reader sees as %s' % (sh, small, const, sh, why), payload))
+                break
+    cgvp.close()
+    # bash half by execution
+    rep = run_e2('C07', tier, seed, family_c07(tier, seed), K=1, configs=[e2.DEFAULT_WB],
+                 extra={'concrete_vocab_cases': True, 'extra_alphabet': 'z='})
+    other = set(e2.KNOWN_DEVS)
+    kept = [(k, w, p) for (k, w, p) in rep.violations if not set(k.split('+')) <= other]
+    rep.coverage['differences_attributed_to_other_properties_known_deviations'] = len(rep.violations) - len(kept)
+    rep.violations = kept
+    for (k, w, p) in e1_viol:
+        rep.violation(k, w, p)
+    rep.coverage['e1'] = {
+        'functions_encoded': ['%s::make_string_constant' % sh for sh in shells],
+        'bound': 'all ASCII strings (bytes 1..127) of up to %d bytes' % N,
+        'rows': e1_rows,
+        'library_models': sorted(models),
+        'translator_validation_strings': nvalid,
+        'reader_models': 'cgv/quoting.py (bash, zsh, fish, pwsh double-quote rules from the manuals)',
+    }
+    for k, v in stats.queries.items():
+        rep.coverage['solver_queries'][k] = rep.coverage['solver_queries'].get(k, 0) + v
+    rep.coverage['solver_queries_total'] = sum(rep.coverage['solver_queries'].values())
+    rep.coverage['solver_time_s'] = round(rep.coverage['solver_time_s'] + stats.solver_s, 2)
+    rep.coverage['explanation'] = ('E1: the MIR of the four make_string_constant functions (regenerated from /repo) is interpreted over guarded symbolic '
+                                   'byte cells and z3 decides, for all ASCII strings up to the stated length, that each shell\'s double-quote reader '
+                                   'reads the constant back as the input, well terminated and without a live expansion. E2 half: ' + rep.coverage['explanation'])
+    rep.assumptions += ['non-ASCII text is outside the E1 bound (the escapers replace ASCII characters only)',
+                        'history expansion (!) is off in a sourced non-interactive bash/zsh script',
+                        'which characters can reach a constant is taken from the documented lexer, which is not verified (C05 n/a)',
+                        'words typed by the user contain no glob metacharacters or backslashes in the symbolic part; literals made of such '
+                        'characters are additionally exercised as themselves (concretely) in the real bash']
+    rep.t0 = t0
+    return rep
+
+
 CHECKS = {
+    'C07': check_C07,
     'C17': check_C17,
     'C01': check_C01,
     'C12': check_C12,
